@@ -2,7 +2,7 @@
 # seeded_verify.sh <Cxx> [check-id] [runs]: confirm an independently written breaking change
 # (worktree /tmp/wt/Cxx with the change applied, deliverables in /tmp/seeded_out/Cxx) and run the check.
 id=$1; chk=${2:-$1}; runs=${3:-}
-if [ "${ROUND:-1}" = "16" ]; then WT=/tmp/wt/R16$id; OUT=/tmp/seeded16/$id; DST=/verif/seeded/$id-r16; elif [ "${ROUND:-1}" = "15" ]; then WT=/tmp/wt/R15$id; OUT=/tmp/seeded15/$id; DST=/verif/seeded/$id-r15; elif [ "${ROUND:-1}" = "14" ]; then WT=/tmp/wt/R14$id; OUT=/tmp/seeded14/$id; DST=/verif/seeded/$id-r14; elif [ "${ROUND:-1}" = "13" ]; then WT=/tmp/wt/R13$id; OUT=/tmp/seeded13/$id; DST=/verif/seeded/$id-r13; elif [ "${ROUND:-1}" = "12" ]; then WT=/tmp/wt/R12$id; OUT=/tmp/seeded12/$id; DST=/verif/seeded/$id-r12; elif [ "${ROUND:-1}" = "11" ]; then WT=/tmp/wt/R11$id; OUT=/tmp/seeded11/$id; DST=/verif/seeded/$id-r11; elif [ "${ROUND:-1}" = "10" ]; then WT=/tmp/wt/R10$id; OUT=/tmp/seeded10/$id; DST=/verif/seeded/$id-r10; elif [ "${ROUND:-1}" = "9" ]; then WT=/tmp/wt/R9$id; OUT=/tmp/seeded9/$id; DST=/verif/seeded/$id-r9; elif [ "${ROUND:-1}" = "8" ]; then WT=/tmp/wt/R8$id; OUT=/tmp/seeded8/$id; DST=/verif/seeded/$id-r8; elif [ "${ROUND:-1}" = "7" ]; then WT=/tmp/wt/R7$id; OUT=/tmp/seeded7/$id; DST=/verif/seeded/$id-r7; elif [ "${ROUND:-1}" = "6" ]; then WT=/tmp/wt/R6$id; OUT=/tmp/seeded6/$id; DST=/verif/seeded/$id-r6; elif [ "${ROUND:-1}" = "5" ]; then WT=/tmp/wt/R5$id; OUT=/tmp/seeded5/$id; DST=/verif/seeded/$id-r5; elif [ "${ROUND:-1}" = "4" ]; then WT=/tmp/wt/R4$id; OUT=/tmp/seeded4/$id; DST=/verif/seeded/$id-r4; elif [ "${ROUND:-1}" = "3" ]; then WT=/tmp/wt/R3$id; OUT=/tmp/seeded3/$id; DST=/verif/seeded/$id-r3; elif [ "${ROUND:-1}" = "2" ]; then WT=/tmp/wt/R2$id; OUT=/tmp/seeded2/$id; DST=/verif/seeded/$id-r2; else WT=/tmp/wt/$id; OUT=/tmp/seeded_out/$id; DST=/verif/seeded/$id; fi
+R=${ROUND:-1}; if [ "$R" -ge 2 ]; then WT=/tmp/wt/R$R$id; OUT=/tmp/seeded$R/$id; DST=/verif/seeded/$id-r$R; else WT=/tmp/wt/$id; OUT=/tmp/seeded_out/$id; DST=/verif/seeded/$id; fi
 [ -f $OUT/patch.diff ] || { echo "no patch for $id"; exit 1; }
 mkdir -p $DST
 demo=$(ls $OUT | grep -E "^demo.*\.rs$" | head -1)
